@@ -365,3 +365,14 @@ Definition failed_cb (c : nat) (t : list tev) : bool :=
                    | _ => false end) t.
 Definition check_C04_join (n : nat) (t : list tev) : bool :=
   forallb (fun c => negb (started_ok c t && failed_cb c t) || ended c t) (seq 0 n).
+
+(* the same for a callback after pre_start that was cancelled by a kill: the kill never escapes
+   the actor either (seeded regression C04-5: a kill during handle_supervisor_evt classified as a
+   stop made the loop re-poll the consumed signal and panic outside every catch_unwind) *)
+Definition cancelled_cb (c : nat) (t : list tev) : bool :=
+  has_ev (fun e => match e with
+                   | TCancel j PreStart => false
+                   | TCancel j _ => Nat.eqb j c
+                   | _ => false end) t.
+Definition check_C04_join_cancel (n : nat) (t : list tev) : bool :=
+  forallb (fun c => negb (started_ok c t && cancelled_cb c t) || ended c t) (seq 0 n).
